@@ -265,7 +265,7 @@ def run(tier, seed, t0):
         acc.merge(a)
     # object identity (WeakObjValue hashing reads a Weak as an integer), the per-(object, layer) value cache and
     # the cached object-local contexts under the memory monitors
-    sanit.run_pass(acc, PROP, tier, seed, quick={"asan": 160}, thorough={"asan": 2400, "memcheck": 480, "miri": 256})
+    sanit.run_pass(acc, PROP, tier, seed, quick={"asan": 160}, thorough={"asan": 2400, "memcheck": 320, "miri": 128})
     return runner.finish(
         PROP, tier, seed, "exploration", acc, t0,
         rule="exhaustive: every 1- and 2-layer chain over names {a,b} x %d member kinds per name (absent, plain, "
